@@ -127,3 +127,198 @@ async fn reset_seen_by_read_is_remembered() {
     };
     timeout(Duration::from_secs(5), work).await.expect("timed out");
 }
+
+/// Replay body for `e2_quinn_poll_socket_split_loop` (C19): a fake `AsyncUdpSocket` hands the endpoint driver a
+/// coalesced (GRO) receive buffer whose last datagram is shorter than the stride.  Every datagram is a long-header
+/// packet of an unsupported version with a unique source CID, so the endpoint answers each one it sees with a
+/// Version Negotiation packet echoing that CID: the answers tell which datagrams were split out.
+mod split {
+    use std::{
+        collections::{BTreeSet, VecDeque},
+        fmt, io,
+        net::{Ipv4Addr, SocketAddr},
+        pin::Pin,
+        sync::{Arc, Mutex},
+        task::{Context, Poll, Waker},
+        time::Duration,
+    };
+
+    use crate::{
+        AsyncUdpSocket, Endpoint, EndpointConfig, ServerConfig, TokioRuntime, UdpSender,
+        udp::{RecvMeta, Transmit},
+    };
+    use rustls::pki_types::{CertificateDer, PrivatePkcs8KeyDer};
+
+    /// One receive buffer as the kernel would fill it: `(bytes, stride)`
+    type Coalesced = (Vec<u8>, usize);
+
+    #[derive(Default)]
+    struct Shared {
+        /// Batches yet to be returned from `poll_recv`
+        inbound: VecDeque<Vec<Coalesced>>,
+        waker: Option<Waker>,
+        /// Payloads of everything the endpoint sent
+        outbound: Vec<Vec<u8>>,
+    }
+
+    #[derive(Clone)]
+    struct FakeSocket(Arc<Mutex<Shared>>);
+
+    impl fmt::Debug for FakeSocket {
+        fn fmt(&self, f: &mut fmt::Formatter<'_>) -> fmt::Result {
+            f.write_str("FakeSocket")
+        }
+    }
+
+    impl AsyncUdpSocket for FakeSocket {
+        fn create_sender(&self) -> Pin<Box<dyn UdpSender>> {
+            Box::pin(self.clone())
+        }
+
+        fn poll_recv(
+            &mut self,
+            cx: &mut Context<'_>,
+            bufs: &mut [io::IoSliceMut<'_>],
+            meta: &mut [RecvMeta],
+        ) -> Poll<io::Result<usize>> {
+            let mut shared = self.0.lock().unwrap();
+            let Some(batch) = shared.inbound.pop_front() else {
+                shared.waker = Some(cx.waker().clone());
+                return Poll::Pending;
+            };
+            assert!(batch.len() <= bufs.len() && batch.len() <= meta.len());
+            for (i, (bytes, stride)) in batch.iter().enumerate() {
+                bufs[i][..bytes.len()].copy_from_slice(bytes);
+                let mut m = RecvMeta::default();
+                m.addr = SocketAddr::from((Ipv4Addr::LOCALHOST, 40_000 + i as u16));
+                m.len = bytes.len();
+                m.stride = *stride;
+                meta[i] = m;
+            }
+            Poll::Ready(Ok(batch.len()))
+        }
+
+        fn local_addr(&self) -> io::Result<SocketAddr> {
+            Ok(SocketAddr::from((Ipv4Addr::LOCALHOST, 4433)))
+        }
+
+        fn max_receive_segments(&self) -> usize {
+            64
+        }
+    }
+
+    impl UdpSender for FakeSocket {
+        fn poll_send(
+            self: Pin<&mut Self>,
+            transmit: &Transmit<'_>,
+            _cx: &mut Context<'_>,
+        ) -> Poll<io::Result<()>> {
+            self.0
+                .lock()
+                .unwrap()
+                .outbound
+                .push(transmit.contents.to_vec());
+            Poll::Ready(Ok(()))
+        }
+    }
+
+    /// A `len`-byte long-header packet of an unsupported version whose source CID encodes `tag`
+    fn probe(tag: u16, len: usize) -> Vec<u8> {
+        let mut p = vec![0xc0, 0x0a, 0x1a, 0x2a, 0x3a];
+        p.push(8);
+        p.extend_from_slice(&[0xdd; 8]);
+        p.push(8);
+        p.extend_from_slice(&[0x5c, 0x1d, 0, 0, 0, 0]);
+        p.extend_from_slice(&tag.to_be_bytes());
+        assert!(len >= p.len());
+        p.resize(len, 0);
+        p
+    }
+
+    /// Extracts the tag from a Version Negotiation packet answering a `probe`
+    fn answered_tag(vn: &[u8]) -> u16 {
+        assert_eq!(vn[0] & 0x80, 0x80, "long header");
+        assert_eq!(&vn[1..5], &[0; 4], "version negotiation");
+        assert_eq!(vn[5], 8, "destination CID echoes the probe's source CID");
+        assert_eq!(&vn[6..12], &[0x5c, 0x1d, 0, 0, 0, 0]);
+        u16::from_be_bytes([vn[12], vn[13]])
+    }
+
+    /// Concatenates probes of the given lengths the way GRO does, returning the buffer and its tags
+    fn coalesce(first_tag: u16, lens: &[usize]) -> (Vec<u8>, BTreeSet<u16>) {
+        let mut buf = Vec::new();
+        let mut tags = BTreeSet::new();
+        for (i, &len) in lens.iter().enumerate() {
+            let tag = first_tag + i as u16;
+            buf.extend_from_slice(&probe(tag, len));
+            tags.insert(tag);
+        }
+        (buf, tags)
+    }
+
+    fn server_config() -> ServerConfig {
+        let cert = rcgen::generate_simple_self_signed(vec!["localhost".into()]).unwrap();
+        ServerConfig::with_single_cert(
+            vec![CertificateDer::from(cert.cert.der().to_vec())],
+            PrivatePkcs8KeyDer::from(cert.signing_key.serialize_der()).into(),
+        )
+        .unwrap()
+    }
+
+    /// Feeds `batch` to a fresh endpoint and returns the tags of the datagrams it reacted to
+    async fn tags_seen(batch: Vec<Coalesced>, expected: usize) -> BTreeSet<u16> {
+        let shared = Arc::new(Mutex::new(Shared::default()));
+        let endpoint = Endpoint::new_with_abstract_socket(
+            EndpointConfig::default(),
+            Some(server_config()),
+            Box::new(FakeSocket(shared.clone())),
+            Arc::new(TokioRuntime),
+        )
+        .unwrap();
+
+        {
+            let mut shared = shared.lock().unwrap();
+            shared.inbound.push_back(batch);
+            if let Some(waker) = shared.waker.take() {
+                waker.wake();
+            }
+        }
+
+        // Wait for the driver to work through the batch (bounded, so a lost datagram fails the test
+        // instead of hanging it).
+        for _ in 0..200 {
+            if shared.lock().unwrap().outbound.len() >= expected {
+                break;
+            }
+            tokio::time::sleep(Duration::from_millis(10)).await;
+        }
+        // Leave room for any surplus responses to show up, too
+        tokio::time::sleep(Duration::from_millis(50)).await;
+
+        let shared = shared.lock().unwrap();
+        let tags = shared.outbound.iter().map(|vn| answered_tag(vn)).collect();
+        assert_eq!(
+            shared.outbound.len(),
+            BTreeSet::len(&tags),
+            "a datagram was handled twice"
+        );
+        drop(shared);
+        drop(endpoint);
+        tags
+    }
+
+
+    #[tokio::test]
+    async fn every_datagram_of_a_coalesced_buffer_is_delivered() {
+        let (buf, tags) = coalesce(100, &[120, 120, 120]);
+        assert_eq!(tags_seen(vec![(buf, 120)], tags.len()).await, tags, "a buffer that is an exact multiple of the stride");
+        let (buf, tags) = coalesce(300, &[120, 120, 120, 41]);
+        assert_eq!(tags_seen(vec![(buf, 120)], tags.len()).await, tags, "the short last datagram of a coalesced receive buffer was not delivered");
+        let (a, mut tags) = coalesce(400, &[1200, 1200, 23]);
+        let (b, tags_b) = coalesce(500, &[64]);
+        let (c, tags_c) = coalesce(600, &[300, 299]);
+        tags.extend(tags_b);
+        tags.extend(tags_c);
+        assert_eq!(tags_seen(vec![(a, 1200), (b, 64), (c, 300)], tags.len()).await, tags, "a datagram of a multi-buffer batch was not delivered");
+    }
+}
